@@ -254,8 +254,12 @@ def r6(ctx: Ctx) -> None:
     for p in normal_paths(ctx.paths(f.qualname)):
         out = [e for e in calls(p) if (e.name == "heappop" and e.args and key(strip_ver(e.args[0])).endswith("priority_queue")) or (e.name == "remove" and e.recv is not None and key(strip_ver(e.recv)).endswith("priority_queue") and key(e.args[0]) == "order")]
         top = [pol for c, pol, _ in p.conds if key(strip_ver(c)) in ("(order == self.priority_queue[0])", "(self.priority_queue[0] == order)")]
+        anymut = [e for e in p.walk_events() if (e.kind == "call" and e.data.get("mutates") is not None and key(strip_ver(e.data["mutates"])).endswith("priority_queue")) or (e.kind in ("store", "del") and e.attr is None and key(strip_ver(e.base)).endswith("priority_queue"))]
         ok = len(out) == 1 and (out[0].name != "heappop" or (top and top[0]))
-        ctx.check(ok, f, f.node, "the order leaves the priority queue (pop only when it is the top)", "heappop if top else remove(order)", ", ".join(e.name for e in out) + f" top={top}")
+        if not ok and anymut and not out:
+            ctx.unrec(f, f.node, "the order leaves the priority queue", "removal idiom not recognised (neither heappop-of-top nor remove(order)): " + ", ".join(sorted({getattr(e, "name", e.kind) for e in anymut})))
+            continue
+        ctx.check(ok, f, f.node, "the order leaves the priority queue (pop only when it is the top)", "heappop if top else remove(order)", ", ".join(e.name for e in out) + f" top={top}" if out else "the queue is not modified")
     # reaper
     f = ctx.func("OrderBook._check_expired_orders")
     for p in ctx.paths(f.qualname):
